@@ -24,6 +24,10 @@ from .specgen import Struct, Union, Alias, T, INT_RANGES, FLOAT32_MAX, PATTERNS
 CATCH_ALL = 'other'
 
 
+class Uninhabitable(Exception):
+    """gen_value found no finite value (a required cycle the generators failed to avoid)."""
+
+
 # ----------------------------------------------------------------------------------------
 # helpers over the model
 
@@ -71,6 +75,8 @@ def has_catch_all(model, u):
 
 def gen_value(tape, model, t, depth=0, prefer=None):
     """prefer: optional set of (kind, ns, name, member) sites the caller wants exercised."""
+    if depth > 60:
+        raise Uninhabitable('no finite value found for %r' % (t,))
     rt = res(model, t)
     if rt.kind == 'nullable':
         if depth > 3 or tape.chance(30):
